@@ -5,6 +5,16 @@ go 1.24.2
 require (
 	github.com/KevoDB/kevo v0.0.0
 	github.com/cespare/xxhash/v2 v2.3.0
+	google.golang.org/grpc v1.72.0
+)
+
+require (
+	github.com/klauspost/compress v1.18.0 // indirect
+	golang.org/x/net v0.38.0 // indirect
+	golang.org/x/sys v0.31.0 // indirect
+	golang.org/x/text v0.23.0 // indirect
+	google.golang.org/genproto/googleapis/rpc v0.0.0-20250218202821-56aae31c358a // indirect
+	google.golang.org/protobuf v1.36.6 // indirect
 )
 
 replace github.com/KevoDB/kevo => /repo
